@@ -137,6 +137,23 @@ ymd_get_yd(unsigned int y, unsigned int m, unsigned int d)
 	return __mon_yday[m] + d + UNLIKELY(!(y % 4U)/*leapp(year)*/ && m >= 3);
 }
 
+static bool
+ymd_in_doy_p(const bitint383_t *doy, unsigned int y, unsigned int m, unsigned int d)
+{
+/* is Y-M-D one of the days of the year in DOY, negatives count from
+ * the end of the year */
+	const int yd = (int)ymd_get_yd(y, m, d);
+	const int maxy = (y % 4U) ? 365 : 366;
+	int tmp;
+
+	for (bitint_iter_t i = 0UL; (tmp = bi383_next(&i, doy), i);) {
+		if (tmp > 0 ? tmp == yd : maxy + 1 + tmp == yd) {
+			return true;
+		}
+	}
+	return false;
+}
+
 static __attribute__((const, pure)) inline unsigned int
 __get_ndom(unsigned int y, unsigned int m)
 {
@@ -1837,7 +1854,7 @@ rrul_fill_Hly(echs_instant_t *restrict tgt, size_t nti, rrulsp_t rr)
 				     if (++m > 12U) {
 					     y++;
 					     m = 1U;
-					     yd -= maxy - 1;
+					     yd -= maxy;
 					     maxy = (y % 4U) ? 365 : 366;
 				     }
 				     maxd = __get_ndom(y, m);
@@ -1865,7 +1882,7 @@ rrul_fill_Hly(echs_instant_t *restrict tgt, size_t nti, rrulsp_t rr)
 			for (bitint_iter_t doyi = 0UL;
 			     (tmp = bi383_next(&doyi, &rr->doy), doyi);) {
 				if (tmp > 0 && (unsigned int)tmp == yd ||
-				    tmp < 0 && maxy - ++tmp == yd) {
+				    tmp < 0 && maxy + ++tmp == yd) {
 					/* that's clearly a match */
 					goto bang;
 				}
@@ -2042,7 +2059,9 @@ rrul_fill_Mly(echs_instant_t *restrict tgt, size_t nti, rrulsp_t rr)
 		if (!(wd_mask & (1U << w)) ||
 		    !(m_mask & (1U << m)) ||
 		    (!(posd_mask & (1U << d)) &&
-		     !(negd_mask & (1U << (maxd - d))))) {
+		     !(negd_mask & (1U << (maxd - d)))) ||
+		    (bi383_has_bits_p(&rr->doy) &&
+		     !ymd_in_doy_p(&rr->doy, y, m, d))) {
 			/* nothing on this day, fast forward to the last stop of
 			 * the day keeping the phase of INTER, and don't run
 			 * past UNTIL while we're at it */
@@ -2265,7 +2284,9 @@ rrul_fill_Sly(echs_instant_t *restrict tgt, size_t nti, rrulsp_t rr)
 		if (!(wd_mask & (1U << w)) ||
 		    !(m_mask & (1U << m)) ||
 		    (!(posd_mask & (1U << d)) &&
-		     !(negd_mask & (1U << (maxd - d))))) {
+		     !(negd_mask & (1U << (maxd - d)))) ||
+		    (bi383_has_bits_p(&rr->doy) &&
+		     !ymd_in_doy_p(&rr->doy, y, m, d))) {
 			/* nothing on this day, fast forward to the last stop of
 			 * the day keeping the phase of INTER, and don't run
 			 * past UNTIL while we're at it */
